@@ -495,8 +495,8 @@ func c16GenTargets(r *rand.Rand, v *c16Vocab, n int) []c16Target {
 					t.Kind = 0
 				case x < 7:
 					t.Kind = 1
-					// a '/' inside a string key is rare on purpose (see notes/findings/C16.md F2)
-					t.Key = bstr(c16StringKey(r, c16Chance(r, 0.08)))
+					// a '/' inside (or at the end of) a string key: notes/findings/C16.md F2
+					t.Key = bstr(c16StringKey(r, c16Chance(r, 0.2)))
 				default:
 					t.Kind = 2
 					t.Key = bstr(c16RegexKey(r))
